@@ -217,12 +217,22 @@ def run(ctx):
             def inline(self, fn, args, interp, path):
                 return fn["path"].startswith("expression::partial::") and fn.get("name") not in KEEP
 
-        def unit_args(b, mode=None):
+        def captured_names(b):
+            """{capture name: type} of a closure body (field projections of the environment carry both)"""
+            import json as _json
+            return dict(re.findall(r'"name": "cap:(\w+)", "owner": "[^"]*", "ty": "([^"]*)"', _json.dumps(b["blocks"])))
+
+        def unit_args(b, mode=None, root=None):
             out = []
             for i in range(b["arg_count"]):
                 ty = b["locals"][i + 1]["ty"]
                 if mode and ty.endswith("partial::MissingOpMode"):
                     out.append(Variant("expression::partial::MissingOpMode", mode, {}))
+                elif i == 0 and b["kind"] == "Closure" and mode and root is not None:
+                    # a closure of the function under analysis: a captured MissingOpMode parameter has the analysed value
+                    cn = captured_names(b)
+                    caps = {n: (Variant("expression::partial::MissingOpMode", mode, {}) if ty.rstrip().endswith("partial::MissingOpMode") else Sym("cap_" + n)) for n, ty in cn.items()}
+                    out.append(Closure(b["path"], caps) if any(isinstance(v, Variant) for v in caps.values()) else Sym("a0"))
                 else:
                     out.append(Sym("a%d" % i))
             return out
@@ -230,7 +240,7 @@ def run(ctx):
         def decide(label, root, field, mode):
             units = 0
             for b in [root] + [fb.bodies[c] for c in fb.closures_of(root["path"])]:
-                r = dispatch.analyse(fb, b, unit_args(b, mode), field, PD())
+                r = dispatch.analyse(fb, b, unit_args(b, mode, root), field, PD())
                 if r.calls == 0:
                     continue
                 units += 1
